@@ -31,7 +31,42 @@ type faultseqScn struct{}
 func (faultseqScn) Name() string     { return "faultseq" }
 func (faultseqScn) Property() string { return "C09" }
 
+// genStorm: many senders of one connection cycle through a write queue of one slot (each frame a
+// sender gets in frees the next waiter) when the connection is reset: every one of them must come back.
+func genStorm(g *simrt.Rng, tier string) *FaultSeqPlan {
+	p := &FlowPlan{Env: genEnv(g, tier), Faulty: true}
+	p.Opt.WriteQueue = simrt.Pick(g, 1, 16)
+	p.Opt.Window = 1 << 20
+	p.Opt.Compression = false
+	p.Net.BufCap = simrt.Pick(g, 64, 1024, 0)
+	p.Net.LatencyMaxUs = simrt.Pick(g, 0, 10, 200)
+	p.Net.LatencyMinUs = 0
+	if p.Sched.Policy == simrt.PolicyRandom && p.Sched.PYield < 0.05 {
+		p.Sched.PYield = simrt.Pick(g, 0.05, 0.2, 0.5)
+	}
+	p.Clients = []ClientPlan{{Kind: "connect"}}
+	for i := 3 + g.IntN(6); i > 0; i-- {
+		c := ChanPlan{End: EndClientClose}
+		for k := 6 + g.IntN(14); k > 0; k-- {
+			c.C2S = append(c.C2S, Msg{Size: simrt.Pick(g, 16, 17, 40, 64, 900+g.IntN(130))})
+		}
+		p.Channels = append(p.Channels, c)
+	}
+	// the cut lands at a byte offset inside the traffic, i.e. while the senders are cycling
+	total := 0
+	for _, c := range p.Channels {
+		for _, m := range c.C2S {
+			total += m.Size + 30
+		}
+	}
+	p.Net.Faults = []simnet.Fault{{Conn: 0, Dir: 0, AtByte: int64(60 + g.IntN(total)), Kind: simrt.Pick(g, simnet.FaultRST, simnet.FaultRST, simnet.FaultFIN)}}
+	return &FaultSeqPlan{Flow: p}
+}
+
 func (faultseqScn) Generate(g *simrt.Rng, tier string) any {
+	if g.Bool(0.15) || tier == "storm" {
+		return genStorm(g, tier)
+	}
 	p := genFlowPlan(g, tier, []int{EndClientClose, EndClientFree, EndServerClose, EndHandlerOK})
 	p.Faulty = true
 	// clients that can come back: on-demand and auto-connect (a bare Connect cannot)
